@@ -144,6 +144,9 @@ impl Prop for C14 {
     fn id(&self) -> &'static str {
         "C14"
     }
+    fn fuzz_target(&self) -> Option<&'static str> {
+        Some("fz_choices")
+    }
     fn stream_len(&self, _tier: Tier) -> usize {
         1100
     }
